@@ -95,4 +95,14 @@ theorem C03_history_server_order (ops : List Joint.Op) (ticked : Bool) (ms : Nat
   obtain ⟨h1, h2⟩ := Joint.frame_update_ghost _ ticked ms parts inv c o u hm hu
   exact ⟨h2, h1, inv.incr c⟩
 
+/-- Non-vacuity of the history theorem: client 0 gets update messages at ticks 1 and 3 (tick 2
+has nothing to say), client 1 is authorized late and gets its first one at tick 4. -/
+example :
+    let s0 : Joint.St := { srv := { rates := [(0, .every), (1, .every)] } }
+    let ops : List Joint.Op :=
+      [.start, .connect 0 true, .connect 1 false, .spawn 5 true [(0, 7)], .frame true 10 (fun _ => []),
+       .frame true 10 (fun _ => []), .insert 5 1 9, .frame true 10 (fun _ => []), .authorize 1, .frame true 10 (fun _ => [])]
+    ((Joint.run s0 ops).1.sent 0, (Joint.run s0 ops).1.sent 1) = ([1, 3], [4]) := by
+  decide
+
 end Replicon.C03
